@@ -13,46 +13,54 @@
    - [supported6 uc tc rts t]: the fragment the builder handles.
 
    The code violates the full property (C06_full) on many constructs; the witnesses are the
-   C06_*_refuted theorems.  The partial theorems exclude exactly: edges; records; a marked scalar as
-   node value; references in key position; forward references (references to markers that are not
+   C06_*_refuted theorems.  The partial theorems exclude exactly: edges; a marked scalar as node
+   value; references in key position; forward references (references to markers that are not
    complete yet: they work in list / map-value / node-child positions according to the
    correspondence run, and are lost in node-value position, but they are outside [erase_doc]);
-   -0 as a negative integer; bit, UID and float16 arrays, float32 arrays holding a signalling NaN;
-   numeric arrays with elements wider than a byte delivered in chunks; remote references; custom
+   bit, UID and float16 arrays, float32 arrays holding a signalling NaN; remote references; custom
    types; resource identifiers that net/url does not give back verbatim; times that do not come
    back as the same time (dates, times of day, UTC offsets); media with an empty media type; map
-   keys of pointer type (big integers beyond 64 bits, resource identifiers). *)
+   keys of pointer type (big integers beyond 64 bits, resource identifiers); record types with keys
+   other than booleans, 64-bit integers, UIDs and strings.
+   Repaired in /repo while the check was built, and now inside the fragment: records (7dbd995),
+   the integer -0 (2e3a258), arrays of wide elements in chunks (c328897), negative integers below
+   -2^63 (f77250c). *)
 From CE Require Import Model.Build Proofs.BuildProofs.
 Require CE.Model.Rules.
 Open Scope N_scope.
 
 (* ---- the fragment ---- *)
 
-(* Every document of the fragment is built without error (comments and padding anywhere). *)
+(* Every document of the fragment (record types rts, value t) is built without error
+   (comments and padding anywhere). *)
 Theorem C06_untyped_total_partial :
-  forall (uc : bytes -> option bytes) (tc : bytes -> option (bytes * bytes)) es t d,
-    strip es = doc_events [] t -> supported6 uc tc [] t = true -> sem t = Some d ->
+  forall (uc : bytes -> option bytes) (tc : bytes -> option (bytes * bytes)) es rts t d rd,
+    strip es = doc_events rts t -> supported6 uc tc rts t = true ->
+    sem t = Some d -> rts_data rts = Some rd ->
     exists v, build_untyped uc tc es = Ok v.
 Proof. exact fragment_total. Qed.
 Print Assumptions C06_untyped_total_partial.
 
-(* ... and the data of the value built are the data of the document with references replaced
-   by their targets and markers dropped. *)
+(* ... and the data of the value built are the data of the document with records turned into
+   maps, references replaced by their targets and markers dropped. *)
 Theorem C06_untyped_faithful_partial :
-  forall (uc : bytes -> option bytes) (tc : bytes -> option (bytes * bytes)) es t d,
-    strip es = doc_events [] t -> supported6 uc tc [] t = true -> sem t = Some d ->
-    exists v d', build_untyped uc tc es = Ok v /\ erase_doc [] d = Some d' /\ to_dv v = d'.
+  forall (uc : bytes -> option bytes) (tc : bytes -> option (bytes * bytes)) es rts t d rd,
+    strip es = doc_events rts t -> supported6 uc tc rts t = true ->
+    sem t = Some d -> rts_data rts = Some rd ->
+    exists v d', build_untyped uc tc es = Ok v /\ erase_doc rd d = Some d' /\ to_dv v = d'.
 Proof. exact fragment_builds. Qed.
 Print Assumptions C06_untyped_faithful_partial.
 
 (* ... and marshaling that value again gives a document with those data: the iterator's events are
-   the events of a tree t' whose data are the erased data of the original.  [dv_plain d']: the erased
-   data hold no edge and no empty media type and only numeric arrays, which is the case in the
-   fragment (checked on every generated document of the fragment, frag_case_ok). *)
+   the events of a tree t' (without record types) whose data are the erased data of the original.
+   [dv_plain d']: the erased data hold no edge and no empty media type and only numeric arrays,
+   which is the case in the fragment (checked on every generated document of the fragment,
+   frag_case_ok). *)
 Theorem C06_untyped_remarshal_partial :
-  forall (uc : bytes -> option bytes) (tc : bytes -> option (bytes * bytes)) es t d d',
-    strip es = doc_events [] t -> supported6 uc tc [] t = true -> sem t = Some d ->
-    erase_doc [] d = Some d' -> dv_plain d' = true ->
+  forall (uc : bytes -> option bytes) (tc : bytes -> option (bytes * bytes)) es rts t d rd d',
+    strip es = doc_events rts t -> supported6 uc tc rts t = true ->
+    sem t = Some d -> rts_data rts = Some rd ->
+    erase_doc rd d = Some d' -> dv_plain d' = true ->
     exists v t', build_untyped uc tc es = Ok v /\
                  iterate_doc v = Some (doc_events [] t') /\ sem t' = Some d'.
 Proof. exact fragment_remarshals. Qed.
@@ -78,6 +86,22 @@ Example C06_fragment_example_builds :
              UList [UFloat 4609434218613702656; UInt (-7)];
              UList [UFloat 4609434218613702656; UInt (-7)]]).
 Proof. exact frag_example_builds. Qed.
+(* ... and one with two record types, a marked value inside a record, the integer -0 and a uint16
+   array in chunks (all three repaired in /repo while this check was built). *)
+Example C06_record_example_supported :
+  supported6 (fun b => Some b) (fun b => Some (b, b)) rec_example_rts rec_example = true.
+Proof. exact rec_example_supported. Qed.
+Example C06_record_example_accepted :
+  Rules.accepts_document Rules.default_rcfg (doc_events rec_example_rts rec_example) = true.
+Proof. exact rec_example_accepted. Qed.
+Example C06_record_example_data :
+  option_map to_dv (match build_untyped (fun b => Some b) (fun b => Some (b, b)) (doc_events rec_example_rts rec_example)
+                    with Ok v => Some v | _ => None end) =
+  Some (DList [DMap [(DStr [97], DInt 5); (DInt 2, DList [DNull])];
+               DMap [(DBool true, DList [DNull])];
+               DNegZero;
+               DArr AT_Uint16 [1; 0; 2; 0]]).
+Proof. exact rec_example_data. Qed.
 
 (* ---- the full property, and its refutation ---- *)
 
